@@ -1,3 +1,4 @@
 #!/bin/sh
 # TLC with a large stack on every thread (ASSUMEs run on the main thread).
-exec java -Xss1g -XX:+UseParallelGC ${TLC_JAVA_OPTS} -cp /opt/veriftools/tla/tla2tools.jar:/opt/veriftools/tla/CommunityModules-deps.jar tlc2.TLC "$@"
+# TLC_GC / TLC_HEAP / TLC_JAVA_OPTS may be overridden by the driver.
+exec java -Xss1g ${TLC_GC:--XX:+UseParallelGC} ${TLC_HEAP:--Xmx8g} ${TLC_JAVA_OPTS} -cp /opt/veriftools/tla/tla2tools.jar:/opt/veriftools/tla/CommunityModules-deps.jar tlc2.TLC "$@"
